@@ -2,5 +2,5 @@ From Coq Require Import ExtrOcamlBasic.
 From Coq Require Import NArith ZArith.
 From HV Require Import Gen.Tables Attr.Diff.
 Extraction "c16_model.ml" diff_build_gen diff_apply diff_apply_forward_cancel flag_reverse table attrs
-  keys_unique vals_u64 names_set info_names_nodup info_pairs_nodup no_hetero_dists tmem_consistent
+  keys_unique depths_addressable vals_u64 names_set info_names_nodup info_pairs_nodup no_hetero_dists tmem_consistent
   slots_distinct entry_u64 erase skel N.of_uint N.to_uint Z.of_N Z.to_N.
